@@ -188,3 +188,80 @@ where
         None => go(),
     }
 }
+
+/// Canonical description of everything a finished run left behind: population stack (solutions as
+/// exact text, objective bit patterns), best individual, counters, log, algorithm-specific memories
+/// and the next output of the random generator (fingerprint of the stream position).
+pub fn run_digest<P>(state: &State<P>) -> serde_json::Value
+where
+    P: crate::problems::Instrumented,
+{
+    use mahf::components::{diversity as dv, generative::PheromoneMatrix, misc::cro, replacement::sa::Temperature, swarm::fa::RandomizationParameter};
+    use rand::RngCore;
+    use serde_json::json;
+    let ind = |i: &Individual<P>| json!({"s": P::sol_json(i.solution()), "o": i.get_objective().map(|o| format!("{:016x}", o.value().to_bits()))});
+    let mut stack = Vec::new();
+    if let Ok(pops) = state.try_borrow::<common::Populations<P>>() {
+        let mut d = 0;
+        while let Some(p) = pops.try_peek(d) {
+            stack.push(p.iter().map(ind).collect::<Vec<_>>());
+            d += 1;
+        }
+    }
+    let best = state.best_individual().map(|b| ind(&b));
+    let log = state.try_borrow::<mahf::logging::Log>().ok().map(|l| serde_json::to_value(&*l).unwrap_or(json!("unserialisable")));
+    let f = |v: f64| format!("{:016x}", v.to_bits());
+    let mut extra = serde_json::Map::new();
+    macro_rules! div {
+        ($t:ty, $n:expr) => {
+            if let Ok(d) = state.try_borrow::<dv::Diversity<$t>>() {
+                extra.insert($n.into(), json!([f(d.diversity), f(d.max_diversity)]));
+            }
+        };
+    }
+    div!(dv::DimensionWiseDiversity, "div_dw");
+    div!(dv::PairwiseDistanceDiversity, "div_pw");
+    div!(dv::TrueDiversity, "div_td");
+    div!(dv::DistanceToAveragePointDiversity, "div_dtap");
+    if let Ok(v) = state.try_borrow::<pso::ParticleVelocities<Global>>() {
+        extra.insert("pso_v".into(), json!(v.iter().map(|r| r.iter().map(|x| f(*x)).collect::<Vec<_>>()).collect::<Vec<_>>()));
+    }
+    if let Ok(v) = state.try_borrow::<pso::BestParticles<P, Global>>() {
+        extra.insert("pso_pbest".into(), json!(v.iter().map(ind).collect::<Vec<_>>()));
+    }
+    if let Ok(v) = state.try_borrow::<pso::BestParticle<P, Global>>() {
+        extra.insert("pso_gbest".into(), json!(v.as_ref().map(ind)));
+    }
+    if let Ok(t) = state.try_get_value::<Temperature>() {
+        extra.insert("temperature".into(), json!(f(t)));
+    }
+    if let Ok(t) = state.try_get_value::<RandomizationParameter>() {
+        extra.insert("fa_alpha".into(), json!(f(t)));
+    }
+    if let Ok(t) = state.try_get_value::<cro::EnergyBuffer>() {
+        extra.insert("cro_buffer".into(), json!(f(t)));
+    }
+    if let Ok(r) = state.try_borrow::<cro::ChemicalReaction<P>>() {
+        extra.insert("cro_molecules".into(), json!(r.iter().map(|m| json!([f(m.kinetic_energy), m.num_hit, m.min_hit, ind(&m.best)])).collect::<Vec<_>>()));
+    }
+    if let Ok(a) = state.try_borrow::<ElitistArchive<P>>() {
+        extra.insert("archive".into(), json!(a.elitists().iter().map(ind).collect::<Vec<_>>()));
+    }
+    if let Ok(pm) = state.try_borrow::<PheromoneMatrix>() {
+        let n = pm[0].len();
+        extra.insert("pheromones".into(), json!((0..n).map(|i| pm[i].iter().map(|x| f(*x)).collect::<Vec<_>>()).collect::<Vec<_>>()));
+    }
+    let rng_next = state.try_borrow_mut::<mahf::state::Random>().ok().map(|mut r| {
+        let c = r.config().clone();
+        json!({"backend": c.name, "seed": c.seed, "next": r.next_u64()})
+    });
+    json!({
+        "stack": stack,
+        "best": best,
+        "evaluations": state.try_get_value::<common::Evaluations>().ok(),
+        "iterations": state.try_get_value::<common::Iterations>().ok(),
+        "log": log,
+        "extra": extra,
+        "rng": rng_next,
+    })
+}
